@@ -491,6 +491,47 @@ def stepL1 (st : DState) (toks : List String) : Option (DState × String) :=
       some (st, showV (fun rs => " ".intercalate (rs.map Show.verifyResult)) (Verify.history c st.dir.vrf h ep u p prm allow))
     | _, .error .vrfMissing => some (st, "vrf-missing")
     | _, _ => some (st, "err")
+  | "adv.auditn" :: s0 :: k :: i :: edits => do
+    -- a MULTI-step audit (s0 .. s0+k) whose step `i` is edited; with `end:rebuilt` the hash after that step is whatever
+    -- the auditor's rebuild of the edited step hashes to (the other hashes are the published ones)
+    let s0 ← s0.toNat?
+    let k ← k.toNat?
+    let i ← i.toNat?
+    let es ← edits.mapM Adv.parseAuditEdit?
+    match st.dir.audit c s0 (s0 + k) with
+    | .ok ap =>
+      match ap.proofs[i]? with
+      | some pr =>
+        let byLabel (xs : List AzksElement) : List AzksElement :=
+          xs.foldr (fun x acc =>
+            let rec insN (x : AzksElement) : List AzksElement → List AzksElement
+              | [] => [x]
+              | y :: ys => if showLabel x.label ≤ showLabel y.label then x :: y :: ys else y :: insN x ys
+            insN x acc) []
+        let case0 : Adv.AuditCase := { proof := { inserted := byLabel pr.inserted, unchanged := byLabel pr.unchanged } }
+        let cs := es.foldl Adv.applyAudit case0
+        let endEpoch := s0 + i + 1
+        let hashes : List (Option Dig) := (List.range (k + 1)).map fun j => (st.roots.find? (fun r => r.1 = s0 + j)).map (·.2)
+        if hashes.any Option.isNone then none
+        else
+          let hs := hashes.filterMap id
+          let endH : Option Dig :=
+            if cs.endRebuilt then
+              let ins := cs.proof.inserted.map fun x => (⟨x.label, c.leafHash x.value endEpoch⟩ : AzksElement)
+              match Auditor.rebuildRoot c (cs.proof.unchanged ++ ins) (some (endEpoch - 1)) with
+              | .ok h => some h
+              | .error _ => none
+            else hs[i + 1]?
+          match endH with
+          | none => some (st, "err")
+          | some e =>
+            let hs' := hs.set (i + 1) e
+            let proofs' := ap.proofs.set i cs.proof
+            match Auditor.verify c hs' { ap with proofs := proofs' } with
+            | .ok () => some (st, "acc")
+            | .error _ => some (st, "rej")
+      | none => some (st, "err")
+    | .error _ => some (st, "err")
   | "adv.audit" :: ep :: edits => do
     let ep ← ep.toNat?
     let es ← edits.mapM Adv.parseAuditEdit?
